@@ -441,11 +441,11 @@ impl Act {
     }
 }
 
-fn actions(quick: bool, nfiles: usize) -> Vec<Act> {
+fn actions(quick: bool, files: &[usize]) -> Vec<Act> {
     let streams: &[i64] = if quick { &[0, 15] } else { &[0, 1, 15] };
     let mut a = vec![];
     for &s in streams {
-        for f in 0..nfiles {
+        for &f in files {
             a.push(Act::Open(s, f));
         }
         a.push(Act::Open(s, usize::MAX));
@@ -884,7 +884,6 @@ fn main() {
     ctx.assume("\\endlinechar and the category codes do not change while streams are in use (their interaction with the scanner is C03); the read families run twice: with the initial \\endlinechar=13 and with \\endlinechar=-1 set in the prelude, on the program line that is already loaded");
 
     let quick = ctx.quick();
-    let acts = actions(quick, XS_FILES);
     let obs: Vec<i64> = if quick { vec![0, 15] } else { vec![0, 1, 15] };
 
     if let Some((_fam, case)) = ctx.replay_case() {
@@ -1053,7 +1052,8 @@ fn main() {
     // F6: read streams, once with the initial \\endlinechar and once with \\endlinechar=-1 from the prelude on
     for (suffix, no_elc) in [("", false), ("-noelc", true)] {
         // F6a: every short history without merging, including the file that ends inside a group
-        let flat = actions(quick, STREAM_FILES.len());
+        let all_files: Vec<usize> = (0..STREAM_FILES.len()).collect();
+        let flat = actions(quick, &all_files);
         let k = flat.len() as u64;
         let len = ctx.pick(2u32, 3u32);
         let o = &obs;
@@ -1063,35 +1063,45 @@ fn main() {
             let hist: Vec<Act> = vcore::nth_string(k, i).into_iter().map(|j| f[j as usize]).collect();
             check_history(i, &hist, o, false, no_elc, acc);
         });
-        // F6b: explicit-state search
-        let fam = format!("read-xs{suffix}");
-        if !ctx.wants(&fam) {
-            continue;
+        // F6b: explicit-state searches. Two file sets, so that the bound of the first one does not shrink when
+        // files are added: (main) the 19 files fa..ft; (groups) the files fu..fz whose complete brace group is
+        // not at the end of the file, plus an empty, a one-line and a two-line file for the interaction
+        let main_set: Vec<usize> = (0..19).collect();
+        let groups_set: Vec<usize> = (19..XS_FILES).chain([0usize, 1, 3]).collect();
+        let searches: [(&str, &[usize], usize, usize); 2] = [
+            ("", &main_set, if no_elc { ctx.pick(5, 7) } else { ctx.pick(6, 8) }, 0),
+            ("-groups", &groups_set, if no_elc { ctx.pick(4, 5) } else { ctx.pick(5, 6) }, 1),
+        ];
+        for (tag, set, depth, _) in searches {
+            let fam = format!("read-xs{tag}{suffix}");
+            if !ctx.wants(&fam) {
+                continue;
+            }
+            let t = std::time::Instant::now();
+            let acts = actions(quick, set);
+            let deadline = std::time::Instant::now() + std::time::Duration::from_secs_f64(ctx.remaining_s().min(ctx.pick(90.0, 3000.0)));
+            let init = Fp { drain: "<initial>".into(), terminal_pos: 0 };
+            let a = &acts;
+            let (mut acc, stats) = vcore::xs::bfs(a.len(), depth, ctx.pick(400_000, 20_000_000), ctx.threads, deadline, init, |h, acc| {
+                let hist: Vec<Act> = h.iter().map(|i| a[*i as usize]).collect();
+                check_history(u64::MAX, &hist, o, true, no_elc, acc)
+            });
+            let names: Vec<&str> = set.iter().map(|f| STREAM_FILES[*f].0).collect();
+            acc.sample(0, || json!({"xs": {"family": fam, "depth_completed": stats.depth_completed, "frontier_sizes": stats.frontier_sizes, "states": stats.states, "actions": a.iter().map(|x| x.text()).collect::<Vec<_>>()}}));
+            ctx.extra(
+                &format!("xs_read_streams{tag}{suffix}"),
+                json!({"family": fam, "files": names, "depth_completed": stats.depth_completed, "depth_bound": depth, "states": stats.states, "transitions": stats.transitions, "frontier_sizes": stats.frontier_sizes, "capped": stats.capped, "actions": a.len(),
+                "fingerprint": "implementation-observable state: the tokens of \\x, the \\ifeof answer of all 16 streams, and for every stream of the alphabet the full sequence of remaining \\read results obtained by draining it (\\ifeof/\\read up to 5 times) on the same VM after the history, plus the number of terminal lines consumed"}),
+            );
+            ctx.push_family(
+                &fam,
+                &format!("{elc_text}; BFS to depth {depth} over {} actions (\\openin s=f for s in {:?} and the {} files {names:?} + a missing one, \\openin 16/-1, \\read / \\ifeof / \\closein on those streams and on 16, -1), states merged on the drained implementation state", a.len(), o, set.len()),
+                stats.capped.is_none(),
+                stats.capped.clone(),
+                t.elapsed().as_secs_f64(),
+                acc,
+            );
         }
-        let t = std::time::Instant::now();
-        // 26 files x 2 (3) streams: 66 (95) actions; the depth is what keeps quick near 20 s and thorough near 10 min
-        let depth = if no_elc { ctx.pick(4usize, 5usize) } else { ctx.pick(5usize, 6usize) };
-        let deadline = std::time::Instant::now() + std::time::Duration::from_secs_f64(ctx.remaining_s().min(ctx.pick(60.0, 3000.0)));
-        let init = Fp { drain: "<initial>".into(), terminal_pos: 0 };
-        let a = &acts;
-        let (mut acc, stats) = vcore::xs::bfs(a.len(), depth, ctx.pick(400_000, 20_000_000), ctx.threads, deadline, init, |h, acc| {
-            let hist: Vec<Act> = h.iter().map(|i| a[*i as usize]).collect();
-            check_history(u64::MAX, &hist, o, true, no_elc, acc)
-        });
-        acc.sample(0, || json!({"xs": {"family": fam, "depth_completed": stats.depth_completed, "frontier_sizes": stats.frontier_sizes, "states": stats.states, "actions": a.iter().map(|x| x.text()).collect::<Vec<_>>()}}));
-        ctx.extra(
-            &format!("xs_read_streams{suffix}"),
-            json!({"depth_completed": stats.depth_completed, "depth_bound": depth, "frontier_sizes": stats.frontier_sizes, "capped": stats.capped, "actions": a.len(),
-            "fingerprint": "implementation-observable state: the tokens of \\x, the \\ifeof answer of all 16 streams, and for every stream of the alphabet the full sequence of remaining \\read results obtained by draining it (\\ifeof/\\read up to 5 times) on the same VM after the history, plus the number of terminal lines consumed"}),
-        );
-        ctx.push_family(
-            &fam,
-            &format!("{elc_text}; BFS to depth {depth} over {} actions (\\openin s=f for s in {:?} and {XS_FILES} files + a missing one, \\openin 16/-1, \\read / \\ifeof / \\closein on those streams and on 16, -1), states merged on the drained implementation state", a.len(), o),
-            stats.capped.is_none(),
-            stats.capped.clone(),
-            t.elapsed().as_secs_f64(),
-            acc,
-        );
     }
 
     ctx.require("input_mid_line", "\\input is executed while its line still has material after the file name");
